@@ -446,7 +446,7 @@ def spellOK (cs : CharSpec) (k : TK) (text : List Char) (next : Option Char) : B
     | .textStep => c == '>' && r.isEmpty && next != some '>'
     | .minus => c == '-' && r.isEmpty && next != some '-'
     | .lineComment =>
-      c == '-' && r.head? == some '-' && r.all (· != '\n') && (next.isNone || next == some '\n')
+      c == '-' && r.head? == some '-' && r.all (· ≠ '\n') && (next.isNone || next == some '\n')
     | .blockComment =>
       c == '[' && r.head? == some '-' && blockScan r.tail == r.tail.length &&
         (['-', ']'].isSuffixOf r.tail || next.isNone)
@@ -702,5 +702,391 @@ theorem lexFrom_render_chain (cs : CharSpec) (off : Nat) (ts : List Tok) (h : We
     rw [this, ih _ h.2 hc']
     cases t
     simp_all
+
+/-! ### the lexer only produces well spelled tokens -/
+
+theorem blockScan_take (l : List Char) :
+    blockScan (l.take (blockScan l)) = (l.take (blockScan l)).length ∧
+    (['-', ']'] <:+ l.take (blockScan l) ∨ l.drop (blockScan l) = []) := by
+  induction l with
+  | nil => simp [blockScan]
+  | cons c t ih =>
+    by_cases hm : c = '-' ∧ t.head? = some ']'
+    · obtain ⟨rfl, hh⟩ := hm
+      cases t with
+      | nil => simp at hh
+      | cons d u =>
+        simp only [List.head?_cons, Option.some.injEq] at hh
+        subst hh
+        simp [blockScan_close]
+    · rw [blockScan_step c t hm]
+      simp only [List.take_succ_cons, List.drop_succ_cons, List.length_cons]
+      have hm' : ¬ (c = '-' ∧ (t.take (blockScan t)).head? = some ']') := by
+        intro hh
+        apply hm
+        refine ⟨hh.1, ?_⟩
+        have := hh.2
+        cases t with
+        | nil => simp at this
+        | cons d u =>
+          cases hb : blockScan (d :: u) with
+          | zero => rw [hb] at this; simp at this
+          | succ k => rw [hb] at this; simpa using this
+      rw [blockScan_step c _ hm', ih.1]
+      refine ⟨rfl, ?_⟩
+      rcases ih.2 with h | h
+      · exact Or.inl (List.suffix_cons_iff.2 (Or.inr h))
+      · exact Or.inr h
+
+theorem singleTable_kinds : ∀ q ∈ singleTable, q.2 ≠ .escaped ∧ q.2 ≠ .metaStart ∧ q.2 ≠ .textStep ∧ q.2 ≠ .minus ∧
+    q.2 ≠ .lineComment ∧ q.2 ≠ .blockComment ∧ q.2 ≠ .newline ∧ q.2 ≠ .int ∧ q.2 ≠ .zeroInt ∧ q.2 ≠ .ws ∧
+    q.2 ≠ .punct ∧ q.2 ≠ .word := by decide
+
+theorem singleKind_kind {c : Char} {k : TK} (h : singleKind c = some k) :
+    k ≠ .escaped ∧ k ≠ .metaStart ∧ k ≠ .textStep ∧ k ≠ .minus ∧ k ≠ .lineComment ∧ k ≠ .blockComment ∧
+    k ≠ .newline ∧ k ≠ .int ∧ k ≠ .zeroInt ∧ k ≠ .ws ∧ k ≠ .punct ∧ k ≠ .word := by
+  unfold singleKind at h
+  cases hf : singleTable.find? (fun p => p.1 == c) with
+  | none => rw [hf] at h; simp at h
+  | some q =>
+    rw [hf] at h
+    simp only [Option.map_some, Option.some.injEq] at h
+    rw [← h]
+    exact singleTable_kinds q (List.mem_of_find?_eq_some hf)
+
+theorem spellOK_single (cs : CharSpec) {c : Char} {k : TK} (next : Option Char) (h : singleKind c = some k) :
+    spellOK cs k [c] next = true := by
+  obtain ⟨h1, h2, h3, h4, h5, h6, h7, h8, h9, h10, h11, h12⟩ := singleKind_kind h
+  cases k <;> first | contradiction | simp [spellOK, h]
+
+theorem lexlaws_all_takeWhile (p : Char → Bool) (l : List Char) : (l.takeWhile p).all p = true := by
+  induction l with
+  | nil => simp
+  | cons a l ih => by_cases h : p a <;> simp_all
+
+theorem lexlaws_head_dropWhile (p : Char → Bool) (l : List Char) : (l.dropWhile p).head?.any p = false := by
+  cases h : l.dropWhile p with
+  | nil => simp
+  | cons x t => simpa using lexlaws_dropWhile_head p l x t h
+
+theorem lexlaws_span (p : Char → Bool) (rest : List Char) :
+    (rest.take (rest.takeWhile p).length).all p = true ∧
+    (rest.drop (rest.takeWhile p).length).head?.any p = false := by
+  rw [lexlaws_take_takeWhile, lexlaws_drop_takeWhile]
+  exact ⟨lexlaws_all_takeWhile p rest, lexlaws_head_dropWhile p rest⟩
+
+theorem lexlaws_look (rest : List Char) (n : Nat) :
+    (rest.take n ++ (rest.drop n).head?.toList).head? = rest.head? := by
+  rw [lexlaws_head_append, List.take_append_drop]
+
+theorem spellOK_lineComment_intro (cs : CharSpec) {r : List Char} {next : Option Char}
+    (h1 : r.head? = some '-') (h2 : r.all (· ≠ '\n') = true) (h3 : next = none ∨ next = some '\n') :
+    spellOK cs .lineComment ('-' :: r) next = true := by
+  simp only [spellOK, Bool.and_eq_true, beq_iff_eq, Bool.or_eq_true, Option.isNone_iff_eq_none]
+  exact ⟨⟨⟨trivial, h1⟩, h2⟩, h3⟩
+
+theorem spellOK_int_intro (cs : CharSpec) {c : Char} {r : List Char} {next : Option Char}
+    (h1 : isAsciiDigit c = true) (h2 : r.all isAsciiDigit = true) (h3 : c ≠ '0' ∨ r = [])
+    (h4 : next.any isAsciiDigit = false) : spellOK cs .int (c :: r) next = true := by
+  simp only [spellOK, Bool.and_eq_true, Bool.or_eq_true, bne_iff_ne, ne_eq, List.isEmpty_iff,
+    Bool.not_eq_true']
+  exact ⟨⟨⟨h1, h2⟩, h3⟩, h4⟩
+
+theorem spellOK_zeroInt_intro (cs : CharSpec) {r : List Char} {next : Option Char}
+    (h1 : r ≠ []) (h2 : r.all isAsciiDigit = true)
+    (h4 : next.any isAsciiDigit = false) : spellOK cs .zeroInt ('0' :: r) next = true := by
+  simp only [spellOK, Bool.and_eq_true, beq_iff_eq, Bool.not_eq_true', List.isEmpty_eq_false_iff]
+  exact ⟨⟨⟨trivial, h1⟩, h2⟩, h4⟩
+
+theorem spellOK_ws_intro (cs : CharSpec) {c : Char} {r : List Char} {next : Option Char}
+    (h1 : fallsThrough c (r ++ next.toList).head? = true) (h2 : cs.ws c = true) (h3 : r.all cs.ws = true)
+    (h4 : next.any cs.ws = false) : spellOK cs .ws (c :: r) next = true := by
+  simp only [spellOK, Bool.and_eq_true, Bool.not_eq_true']
+  exact ⟨⟨⟨h1, h2⟩, h3⟩, h4⟩
+
+theorem spellOK_punct_intro (cs : CharSpec) {c : Char} {next : Option Char}
+    (h1 : fallsThrough c next.toList.head? = true) (h2 : cs.ws c = false) (h3 : cs.punct c = true) :
+    spellOK cs .punct [c] next = true := by
+  simp only [spellOK, Bool.and_eq_true, Bool.not_eq_true', List.isEmpty_iff]
+  exact ⟨⟨⟨by simpa using h1, h2⟩, h3⟩, trivial⟩
+
+theorem spellOK_word_intro (cs : CharSpec) {c : Char} {r : List Char} {next : Option Char}
+    (h1 : fallsThrough c (r ++ next.toList).head? = true) (h2 : cs.ws c = false) (h3 : cs.punct c = false)
+    (h4 : r.all cs.wordChar = true) (h5 : next.any cs.wordChar = false) :
+    spellOK cs .word (c :: r) next = true := by
+  simp only [spellOK, Bool.and_eq_true, Bool.not_eq_true']
+  exact ⟨⟨⟨⟨h1, h2⟩, h3⟩, h4⟩, h5⟩
+
+/-- what the lexer produces at the start of `c :: rest` is spelled as `spellOK` demands, the
+    next character being the first one the token did not take -/
+theorem spellOK_of_lexOne (cs : CharSpec) (c : Char) (rest : List Char) :
+    spellOK cs (lexOne cs c rest).1 (c :: rest.take (lexOne cs c rest).2)
+      (rest.drop (lexOne cs c rest).2).head? = true := by
+  by_cases c0 : c = '\\'
+  · subst c0
+    cases rest <;> simp [lexOne, spellOK]
+  by_cases c1 : c = '>'
+  · subst c1
+    by_cases hh : rest.head? = some '>'
+    · cases rest with
+      | nil => simp at hh
+      | cons d t =>
+        simp only [List.head?_cons, Option.some.injEq] at hh
+        subst hh
+        simp [lexOne, spellOK]
+    · simp [lexOne, hh, spellOK]
+  by_cases c2 : c = '-'
+  · subst c2
+    by_cases hh : rest.head? = some '-'
+    · have e : lexOne cs '-' rest = (.lineComment, (rest.takeWhile (· ≠ '\n')).length) := by
+        simp [lexOne, hh]
+      rw [e]
+      simp only [lexlaws_take_takeWhile, lexlaws_drop_takeWhile]
+      refine spellOK_lineComment_intro cs ?_ (lexlaws_all_takeWhile _ rest) ?_
+      · cases rest with
+        | nil => simp at hh
+        | cons d t =>
+          simp only [List.head?_cons, Option.some.injEq] at hh
+          subst hh
+          simp
+      · cases hd : rest.dropWhile (· ≠ '\n') with
+        | nil => simp
+        | cons x t =>
+          have := lexlaws_dropWhile_head _ _ _ _ hd
+          simpa using this
+    · simp [lexOne, hh, spellOK]
+  by_cases c3 : c = '[' ∧ rest.head? = some '-'
+  · obtain ⟨rfl, hh⟩ := c3
+    cases rest with
+    | nil => simp at hh
+    | cons d t =>
+      simp only [List.head?_cons, Option.some.injEq] at hh
+      subst hh
+      have e : lexOne cs '[' ('-' :: t) = (.blockComment, blockScan t + 1) := by
+        simp [lexOne, Nat.add_comm]
+      rw [e]
+      obtain ⟨b1, b2⟩ := blockScan_take t
+      simp only [spellOK, List.take_succ_cons, List.drop_succ_cons, List.head?_cons, List.tail_cons, b1,
+        beq_self_eq_true, Bool.true_and, Bool.or_eq_true, List.isSuffixOf_iff_suffix,
+        Option.isNone_iff_eq_none]
+      rcases b2 with b2 | b2
+      · exact Or.inl b2
+      · right; rw [b2]; rfl
+  by_cases c4 : c = '\n'
+  · subst c4; simp [lexOne, spellOK]
+  by_cases c5 : c = '\r' ∧ rest.head? = some '\n'
+  · obtain ⟨rfl, hh⟩ := c5
+    cases rest with
+    | nil => simp at hh
+    | cons d t =>
+      simp only [List.head?_cons, Option.some.injEq] at hh
+      subst hh
+      simp [lexOne, spellOK]
+  by_cases c6 : isAsciiDigit c = true
+  · rw [lexOne_digit cs rest c6]
+    obtain ⟨s1, s2⟩ := lexlaws_span isAsciiDigit rest
+    by_cases hz : c = '0' ∧ (rest.takeWhile isAsciiDigit).length > 0
+    · rw [if_pos hz]
+      obtain ⟨rfl, hz⟩ := hz
+      refine spellOK_zeroInt_intro cs ?_ s1 s2
+      intro h0
+      have := congrArg List.length h0
+      rw [lexlaws_take_takeWhile] at this
+      simp only [List.length_nil] at this
+      omega
+    · rw [if_neg hz]
+      refine spellOK_int_intro cs c6 s1 ?_ s2
+      by_cases h0 : c = '0'
+      · right
+        have : (rest.takeWhile isAsciiDigit).length = 0 := by
+          have : ¬ ((rest.takeWhile isAsciiDigit).length > 0) := fun h => hz ⟨h0, h⟩
+          omega
+        rw [this]; rfl
+      · exact Or.inl h0
+  cases hs : singleKind c with
+  | some k =>
+    rw [lexOne_single cs rest hs]
+    simpa using spellOK_single cs _ hs
+  | none =>
+    have hf : fallsThrough c rest.head? = true := by
+      simp only [fallsThrough, Bool.and_eq_true, bne_iff_ne, ne_eq, Bool.not_eq_true', Option.isNone_iff_eq_none,
+        Bool.and_eq_false_imp, beq_iff_eq]
+      refine ⟨⟨⟨⟨⟨⟨⟨c0, c1⟩, c2⟩, c4⟩, by simpa using c6⟩, hs⟩, ?_⟩, ?_⟩
+      · intro h; simpa using fun h' => c3 ⟨h, h'⟩
+      · intro h; simpa using fun h' => c5 ⟨h, h'⟩
+    rw [lexOne_fall cs rest hf]
+    by_cases w : cs.ws c = true
+    · obtain ⟨s1, s2⟩ := lexlaws_span cs.ws rest
+      rw [if_pos w]
+      exact spellOK_ws_intro cs (by rw [lexlaws_look]; exact hf) w s1 s2
+    · rw [if_neg w]
+      by_cases pc : cs.punct c = true
+      · rw [if_pos pc]
+        exact spellOK_punct_intro cs (by simpa using (lexlaws_look rest 0) ▸ hf) (by simpa using w) pc
+      · obtain ⟨s1, s2⟩ := lexlaws_span cs.wordChar rest
+        rw [if_neg pc]
+        exact spellOK_word_intro cs (by rw [lexlaws_look]; exact hf) (by simpa using w) (by simpa using pc) s1 s2
+
+/-- the lexer only produces well spelled token lists -/
+theorem lexFrom_wellSpelled (cs : CharSpec) (off : Nat) (s : List Char) : WellSpelled cs (lexFrom cs off s) := by
+  fun_induction lexFrom cs off s with
+  | case1 => rfl
+  | case2 off c rest r text ih =>
+    simp only [WellSpelled, wellSpelled, Bool.and_eq_true]
+    refine ⟨?_, ih⟩
+    simp only [render, lexFrom_tile]
+    exact spellOK_of_lexOne cs c rest
+
+theorem wellSpelled_mem {cs : CharSpec} {ts : List Tok} (h : WellSpelled cs ts) {t : Tok} (ht : t ∈ ts) :
+    ∃ next, spellOK cs t.kind t.text next = true := by
+  induction ts with
+  | nil => simp at ht
+  | cons u us ih =>
+    simp only [WellSpelled, wellSpelled, Bool.and_eq_true] at h
+    simp only [List.mem_cons] at ht
+    rcases ht with rfl | ht
+    · exact ⟨_, h.1⟩
+    · exact ih h.2 ht
+
+/-- every token the lexer produces is spelled as its kind demands, for some next character -/
+theorem lexFrom_kind_text (cs : CharSpec) (off : Nat) (s : List Char) :
+    ∀ t ∈ lexFrom cs off s, ∃ next, spellOK cs t.kind t.text next = true :=
+  fun _ ht => wellSpelled_mem (lexFrom_wellSpelled cs off s) ht
+
+/-! what `spellOK` says kind by kind -/
+
+theorem spellOK_int {cs : CharSpec} {text : List Char} {next : Option Char} (h : spellOK cs .int text next = true) :
+    text ≠ [] ∧ text.all isAsciiDigit = true ∧ (text.head? ≠ some '0' ∨ text.length = 1) := by
+  cases text with
+  | nil => simp [spellOK] at h
+  | cons c r =>
+    simp only [spellOK, Bool.and_eq_true, Bool.or_eq_true, bne_iff_ne, ne_eq, List.isEmpty_iff,
+      Bool.not_eq_true'] at h
+    obtain ⟨⟨⟨h1, h2⟩, h3⟩, _⟩ := h
+    refine ⟨by simp, by simp [h1, h2], ?_⟩
+    rcases h3 with h3 | h3
+    · left; simpa using h3
+    · right; simp [h3]
+
+theorem spellOK_zeroInt {cs : CharSpec} {text : List Char} {next : Option Char}
+    (h : spellOK cs .zeroInt text next = true) :
+    text.head? = some '0' ∧ text.length > 1 ∧ text.all isAsciiDigit = true := by
+  cases text with
+  | nil => simp [spellOK] at h
+  | cons c r =>
+    simp only [spellOK, Bool.and_eq_true, beq_iff_eq, Bool.not_eq_true', List.isEmpty_eq_false_iff] at h
+    obtain ⟨⟨⟨rfl, h1⟩, h2⟩, _⟩ := h
+    refine ⟨rfl, ?_, ?_⟩
+    · have := List.length_pos_iff.2 h1
+      simp only [List.length_cons]; omega
+    · simp only [List.all_cons, h2, Bool.and_true]; decide
+
+theorem spellOK_newline {cs : CharSpec} {text : List Char} {next : Option Char}
+    (h : spellOK cs .newline text next = true) : text = ['\n'] ∨ text = ['\r', '\n'] := by
+  cases text with
+  | nil => simp [spellOK] at h
+  | cons c r =>
+    simp only [spellOK, Bool.and_eq_true, beq_iff_eq, Bool.or_eq_true, List.isEmpty_iff] at h
+    rcases h with ⟨rfl, rfl⟩ | ⟨rfl, rfl⟩ <;> simp
+
+theorem spellOK_escaped {cs : CharSpec} {text : List Char} {next : Option Char}
+    (h : spellOK cs .escaped text next = true) :
+    text.head? = some '\\' ∧ (text.length = 2 ∨ (text.length = 1 ∧ next = none)) := by
+  cases text with
+  | nil => simp [spellOK] at h
+  | cons c r =>
+    simp only [spellOK, Bool.and_eq_true, beq_iff_eq, Bool.or_eq_true, List.isEmpty_iff,
+      Option.isNone_iff_eq_none] at h
+    obtain ⟨rfl, h | ⟨rfl, h⟩⟩ := h
+    · exact ⟨rfl, Or.inl (by simp [h])⟩
+    · exact ⟨rfl, Or.inr ⟨rfl, h⟩⟩
+
+theorem spellOK_lineComment {cs : CharSpec} {text : List Char} {next : Option Char}
+    (h : spellOK cs .lineComment text next = true) :
+    ['-', '-'] <+: text ∧ '\n' ∉ text ∧ (next = none ∨ next = some '\n') := by
+  cases text with
+  | nil => simp [spellOK] at h
+  | cons c r =>
+    simp only [spellOK, Bool.and_eq_true, beq_iff_eq, Bool.or_eq_true, Option.isNone_iff_eq_none] at h
+    obtain ⟨⟨⟨rfl, h1⟩, h2⟩, h3⟩ := h
+    cases r with
+    | nil => simp at h1
+    | cons d r =>
+      simp only [List.head?_cons, Option.some.injEq] at h1
+      subst h1
+      refine ⟨by simp, ?_, h3⟩
+      simp only [List.all_cons, Bool.and_eq_true, List.all_eq_true, decide_eq_true_eq] at h2
+      simp only [List.mem_cons, not_or]
+      exact ⟨by decide, by decide, fun hm => h2.2 _ hm rfl⟩
+
+theorem spellOK_blockComment {cs : CharSpec} {text : List Char} {next : Option Char}
+    (h : spellOK cs .blockComment text next = true) :
+    ['[', '-'] <+: text ∧ (['-', ']'] <:+ text.drop 2 ∨ next = none) ∧
+      blockScan (text.drop 2) = (text.drop 2).length := by
+  cases text with
+  | nil => simp [spellOK] at h
+  | cons c r =>
+    simp only [spellOK, Bool.and_eq_true, beq_iff_eq, Bool.or_eq_true, Option.isNone_iff_eq_none,
+      List.isSuffixOf_iff_suffix] at h
+    obtain ⟨⟨⟨rfl, h1⟩, h2⟩, h3⟩ := h
+    cases r with
+    | nil => simp at h1
+    | cons d r =>
+      simp only [List.head?_cons, Option.some.injEq] at h1
+      subst h1
+      simp only [List.tail_cons] at h2 h3
+      exact ⟨by simp, by simpa using h3, by simpa using h2⟩
+
+theorem spellOK_ws {cs : CharSpec} {text : List Char} {next : Option Char} (h : spellOK cs .ws text next = true) :
+    text ≠ [] ∧ text.all cs.ws = true ∧ next.any cs.ws = false := by
+  cases text with
+  | nil => simp [spellOK] at h
+  | cons c r =>
+    simp only [spellOK, Bool.and_eq_true, Bool.not_eq_true'] at h
+    obtain ⟨⟨⟨_, h2⟩, h3⟩, h4⟩ := h
+    exact ⟨by simp, by simp [h2, h3], h4⟩
+
+theorem spellOK_word {cs : CharSpec} {text : List Char} {next : Option Char} (h : spellOK cs .word text next = true) :
+    text ≠ [] ∧ text.tail.all cs.wordChar = true ∧ next.any cs.wordChar = false ∧
+      (∀ c, text.head? = some c → cs.ws c = false ∧ cs.punct c = false ∧ isAsciiDigit c = false ∧
+        singleKind c = none) := by
+  cases text with
+  | nil => simp [spellOK] at h
+  | cons c r =>
+    simp only [spellOK, Bool.and_eq_true, Bool.not_eq_true'] at h
+    obtain ⟨⟨⟨⟨h1, h2⟩, h3⟩, h4⟩, h5⟩ := h
+    refine ⟨by simp, h4, h5, ?_⟩
+    intro d hd
+    simp only [List.head?_cons, Option.some.injEq] at hd
+    subst hd
+    simp only [fallsThrough, Bool.and_eq_true, Bool.not_eq_true', Option.isNone_iff_eq_none] at h1
+    exact ⟨h2, h3, h1.1.1.1.2, h1.1.1.2⟩
+
+theorem spellOK_punct {cs : CharSpec} {text : List Char} {next : Option Char} (h : spellOK cs .punct text next = true) :
+    ∃ c, text = [c] ∧ cs.punct c = true ∧ cs.ws c = false ∧ singleKind c = none ∧ (c = '[' → next ≠ some '-') := by
+  cases text with
+  | nil => simp [spellOK] at h
+  | cons c r =>
+    simp only [spellOK, Bool.and_eq_true, Bool.not_eq_true', List.isEmpty_iff] at h
+    obtain ⟨⟨⟨h1, h2⟩, h3⟩, rfl⟩ := h
+    simp only [fallsThrough, Bool.and_eq_true, Bool.not_eq_true', Option.isNone_iff_eq_none,
+      Bool.and_eq_false_imp, beq_iff_eq] at h1
+    refine ⟨c, rfl, h3, h2, h1.1.1.2, ?_⟩
+    intro hc hn
+    have := h1.1.2 hc
+    rw [hn] at this
+    simp at this
+
+/-- a token of a single character kind is exactly its character -/
+theorem spellOK_singleChar {cs : CharSpec} {k : TK} {text : List Char} {next : Option Char}
+    (hk : k ∈ singleTable.map (·.2)) (h : spellOK cs k text next = true) :
+    ∃ c, text = [c] ∧ singleKind c = some k := by
+  cases text with
+  | nil => simp [spellOK] at h
+  | cons c r =>
+    simp only [singleTable, List.map_cons, List.map_nil, List.mem_cons, List.not_mem_nil, or_false] at hk
+    rcases hk with rfl | rfl | rfl | rfl | rfl | rfl | rfl | rfl | rfl | rfl | rfl | rfl | rfl | rfl | rfl | rfl | rfl <;>
+    · simp only [spellOK, Bool.and_eq_true, beq_iff_eq, List.isEmpty_iff] at h
+      exact ⟨c, by rw [h.1], h.2⟩
 
 end Cook
